@@ -218,11 +218,15 @@ impl<D: DataMut> ReaderFrom for GGLWECompressed<D> {
         self.base2k = Base2K(reader.read_u32::<LittleEndian>()?);
         self.dsize = Dsize(reader.read_u32::<LittleEndian>()?);
         self.rank_out = Rank(reader.read_u32::<LittleEndian>()?);
-        let seed_len: u32 = reader.read_u32::<LittleEndian>()?;
-        self.seed = vec![[0u8; 32]; seed_len as usize];
-        for s in &mut self.seed {
-            reader.read_exact(s)?;
+        let seed_len: usize = reader.read_u32::<LittleEndian>()? as usize;
+        // Grow with the bytes actually present: a corrupted count must not trigger a huge up-front allocation.
+        let mut seed: Vec<[u8; 32]> = Vec::new();
+        for _ in 0..seed_len {
+            let mut s: [u8; 32] = [0u8; 32];
+            reader.read_exact(&mut s)?;
+            seed.push(s);
         }
+        self.seed = seed;
         self.data.read_from(reader)
     }
 }
